@@ -400,6 +400,11 @@ class Interp:
             return "skip"
         if to_obj:
             karg, kb = self.keyarg(c)
+            if x.key is not None and c % 4 == 1:
+                # the reference is filed under the referenced item's own name, passed as that item's key pointer: the library
+                # must copy it (the item is free to drop or change its name while the reference lives on)
+                karg, kb = lib.shim_key(x.ptr), x.key
+                self.feat.add("alias_referenced_key")
             if karg is None:
                 w.expect("AddItemReferenceToObject(object, NULL, item)", lib.cJSON_AddItemReferenceToObject(cont.ptr, None, x.ptr), 0)
                 return "add_ref_object(NULL key)"
@@ -1129,6 +1134,36 @@ class Interp:
             lib.cJSONUtils_ApplyPatchesCaseSensitive(dup, patch)
             lib.cJSON_Delete(dup)
             lib.cJSON_Delete(patch)
+            # a value moved (or copied) to a place inside itself, the destination spelt in another letter case than the source:
+            # for the case-insensitive entry point both name the same member.  Whatever the verdict, nothing may be lost.
+            if kids and (lib.shim_type(r1.ptr) & 0xFF) == 64:
+                for kid in kids[:6]:
+                    kp = lib.shim_key(kid)
+                    kt = lib.shim_type(kid) & 0xFF
+                    if not kp or kt not in (32, 64):
+                        continue
+                    key = ctypes.string_at(kp)
+                    esc = key.replace(b"~", b"~0").replace(b"/", b"~1")
+                    if esc.swapcase() == esc:
+                        continue
+                    tails = ([b"/-", b"/0"] if kt == 32 else [b"/inside", b"/" + esc])
+                    grand = lib.children(kid)
+                    if grand and (lib.shim_type(grand[0]) & 0xFF) in (32, 64):
+                        gk = lib.shim_key(grand[0])
+                        first = (ctypes.string_at(gk).replace(b"~", b"~0").replace(b"/", b"~1") if gk else b"") if kt == 64 else b"0"
+                        tails.append(b"/" + first + (b"/-" if (lib.shim_type(grand[0]) & 0xFF) == 32 else b"/deeper"))
+                    patch = lib.cJSON_CreateArray()
+                    op = lib.cJSON_CreateObject()
+                    lib.cJSON_AddItemToObject(op, b"op", lib.cJSON_CreateString(b"move" if (d >> 4) % 3 else b"copy"))
+                    lib.cJSON_AddItemToObject(op, b"from", lib.cJSON_CreateString(b"/" + esc))
+                    lib.cJSON_AddItemToObject(op, b"path", lib.cJSON_CreateString(b"/" + esc.swapcase() + tails[(d >> 6) % len(tails)]))
+                    lib.cJSON_AddItemToArray(patch, op)
+                    dup = lib.cJSON_Duplicate(r1.ptr, 1)
+                    lib.cJSONUtils_ApplyPatches(dup, patch)
+                    lib.cJSON_Delete(dup)
+                    lib.cJSON_Delete(patch)
+                    self.feat.add("utils_move_into_itself")
+                    break
             self.feat.add("utils")
             return "utils_add_patch_to_array"
         dup = lib.cJSON_Duplicate(r1.ptr, 1)
